@@ -572,3 +572,27 @@ CORPUS += [
     V("C15", "eq-symmetric-commuted", TRF, "y_prime = torch.sin(phi) * x + torch.cos(phi) * y", "y_prime = torch.cos(phi) * y + x * torch.sin(phi)", None),
     V("C15", "eq-dihedral-rename", TRF, "aug_xy", "augmented", None, count=99),
 ]
+
+CORPUS += [
+    V("C01", "pdp-reset-mask-aliases-available", R + "pdp/env.py", "action_mask = torch.ones_like(available) # [batch_size, graph_size+1]", "action_mask = available # [batch_size, graph_size+1]", "C01.f"),
+    V("C10", "filters-on-stale-logits", DECP, '''    if top_k > 0:
+        top_k = min(top_k, logits.size(-1))  # safety check
+        logits = modify_logits_for_top_k_filtering(logits, top_k)
+
+    if top_p > 0:
+        assert top_p <= 1.0, "top-p should be in (0, 1]."
+        logits = modify_logits_for_top_p_filtering(logits, top_p)
+
+    # Compute log probabilities
+    return F.log_softmax(logits, dim=-1)''', '''    filtered = logits
+    if top_k > 0:
+        top_k = min(top_k, logits.size(-1))  # safety check
+        filtered = modify_logits_for_top_k_filtering(logits, top_k)
+
+    if top_p > 0:
+        assert top_p <= 1.0, "top-p should be in (0, 1]."
+        filtered = modify_logits_for_top_p_filtering(logits, top_p)
+
+    # Compute log probabilities
+    return F.log_softmax(filtered, dim=-1)''', "C10.a"),
+]
